@@ -13,6 +13,12 @@
 (*   "prov":    databases of other provenance (backup written by backup_db,  *)
 (*              rollback-journal files; single long-lived reader): scenarios  *)
 (*              with a cursor as in "work", the others as in "startup";      *)
+(*   "boot3":   the race for the bootstrap write with LIFETIMES: the workers *)
+(*              start one after the other and ALL look the bootstrap page up *)
+(*              before the first of them writes it; then every order of the  *)
+(*              writes (write, commit and the reads after it in one go) and  *)
+(*              every placement of every close: a worker that has written    *)
+(*              stays open - idle - while the others write, or closes first; *)
 (*   "all":     no restriction (used with -simulate).                        *)
 (* In "startup" and "work" the contexts are closed at the end, in order.     *)
 EXTENDS MC_Workers, Json
@@ -21,7 +27,10 @@ CONSTANT Focus
 VARIABLES sched,
           meet    \* history: a worker committed while ANOTHER worker's cursor was open on the same database
                   \* (the reader/writer meeting that only a WAL database lets pass); a class label for sampling
-gvars == <<scn, pmain, pbak, ino, wlock, pc, conn, snap, saw, res, chk, raced, snapfail, opn, life, sched, meet>>
+VARIABLE idlew    \* history: per bootstrap write (in the order performed) the number of workers that were idle then -
+                  \* page work over, context still open: the meetings in which a transaction left open by an idle
+                  \* context would keep the writer out for as long as that context lives; a class label for sampling
+gvars == <<scn, pmain, pbak, ino, wlock, pc, conn, snap, saw, res, chk, raced, snapfail, opn, life, txn, sched, meet, idlew>>
 
 StartupLabels == {"exists", "unlink", "rename", "connect", "script"}
 InStartup(p) == pc[p] \in StartupLabels
@@ -37,6 +46,15 @@ AllowedWork(p) ==
   IF Finished(p) THEN CloseLast(p)
   ELSE IF InStartup(p) THEN \A q \in Procs : (q < p) => ~InStartup(q)
   ELSE \A q \in Procs : ~InStartup(q)
+PreInsert(q) == pc[q] \in {"cursor", "read1", "bootcheck"}
+InBlock(q) == pc[q] \in {"commit", "read2"}
+AllowedBoot3(p) ==
+  IF Finished(p) THEN \A q \in Procs : ~InBlock(q)
+  ELSE IF InStartup(p) THEN \A q \in Procs : (q < p) => ~InStartup(q)
+  ELSE IF PreInsert(p) THEN /\ \A q \in Procs : ~InStartup(q)
+                            /\ \A q \in Procs : (q < p) => ~PreInsert(q)
+  ELSE /\ \A q \in Procs : ~InStartup(q) /\ ~PreInsert(q)
+       /\ \A q \in Procs \ {p} : ~InBlock(q)
 Allowed(p) ==
   CASE Focus = "startup" -> AllowedStartup(p)
     [] Focus = "work" -> AllowedWork(p)
@@ -46,12 +64,16 @@ Allowed(p) ==
               /\ pc[p] = "exists" => \A q \in Procs : (q < p) => pc[q] # "exists"
     \* provenance families: scenarios with a cursor as in "work", those without as in "startup"
     [] Focus = "prov" -> IF scn.cursor THEN AllowedWork(p) ELSE AllowedStartup(p)
+    [] Focus = "boot3" -> AllowedBoot3(p)
     [] OTHER -> TRUE
 
-GInit == Init /\ sched = <<>> /\ meet = FALSE
+\* workers that have been through their bootstrap write (or skipped it) and are idle now
+IdleWriters(p) == {q \in Procs \ {p} : Idle(q) /\ conn[q] = conn[p]}
+GInit == Init /\ sched = <<>> /\ meet = FALSE /\ idlew = <<>>
 GNext == \/ \E p \in PAll : Allowed(p) /\ Step(p)
                            /\ sched' = Append(sched, [p |-> p, l |-> IF Finished(p) THEN "close" ELSE pc[p]])
                            /\ meet' = (meet \/ (pc[p] = "commit" /\ Readers(conn[p], p) # {}))
+                           /\ idlew' = IF pc[p] = "insert" THEN Append(idlew, Cardinality(IdleWriters(p))) ELSE idlew
          \/ AllDone /\ UNCHANGED gvars
 GSpec == GInit /\ [][GNext]_gvars
 
@@ -62,7 +84,7 @@ Emit ==
                              res |-> [i \in 1..Cardinality(Procs) |-> res[i]],
                              store |-> (pmain # 0 /\ ino[pmain].c \ {"boot"} = {Exp}),
                              raced |-> raced, snapfail |-> snapfail, life |-> life,
-                             meet |-> meet,
+                             meet |-> meet, idlew |-> idlew,
                              jm |-> IF pmain # 0 THEN ino[pmain].jm ELSE "none"])>>)
 GenInv == Emit
 =============================================================================
